@@ -21,7 +21,7 @@
    what the correspondence run evaluates and what the theorems are about.
    Not modelled: fragments, oneshot packets, Multi inside Multi, SvShutdown traffic, channels,
    the proxy flag, packet payloads beyond the five body shapes below, batching limits of
-   nextPacket (queues hold fewer than limits.Packets small packets: next() empties the queue). *)
+   nextPacket (queues hold fewer than limits.Packets small packets). *)
 From stdpp Require Import gmap.
 From XMT Require Import Base.Prelude.
 
@@ -121,12 +121,20 @@ Inductive ans :=
 | AList (l : list (Z * id))                        (* Server.Sessions, with the key each is stored under *)
 | ABool (b : bool).                                (* Proxy.accept *)
 
-(* Session.next(false) answers at least a NoP naming the session; next(true) may answer nothing.
-   Both hand over everything that is queued. *)
+(* Session.next: an empty queue answers a NoP naming the session (next(false)) or nothing
+   (next(true)).  Otherwise the head of the queue is picked; a head that carries key material
+   (FlagCrypt) and names the session is sent alone and the rest stays queued; any other head is
+   merged with everything that is queued (nextPacket; the queues here are far below limits.Packets
+   and limits.Frag).  The only packet with FlagCrypt the modelled code queues is keyHostSync's
+   SvComplete, so "carries key material" is read off the packet ID. *)
+Definition o_crypt (o : out) : bool := let '(_, pid, _) := o in pid =? SvComplete.
+Definition o_names (o : out) (d : id) : bool := let '(x, _, _) := o in id_eqb x d.
+Definition take_next (s : session) (x : out) (q : list out) : session * list out :=
+  if o_crypt x && o_names x (s_id s) then (set_out s q, [x]) else (set_out s [], x :: q).
 Definition next_false (s : session) : session * list out :=
-  match s_out s with [] => (s, [(s_id s, 0, 0)]) | q => (set_out s [], q) end.
+  match s_out s with [] => (s, [(s_id s, 0, 0)]) | x :: q => take_next s x q end.
 Definition next_true (s : session) : session * list out :=
-  match s_out s with [] => (s, []) | q => (set_out s [], q) end.
+  match s_out s with [] => (s, []) | x :: q => take_next s x q end.
 
 (* keyCryptAndUpdate(l, n, _): any non-empty packet with FlagCrypt overwrites keys.Public *)
 Definition rekey (s : session) (n : leaf) : session * list eff :=
@@ -171,9 +179,12 @@ Definition talk_sub_g (chk : bool) (a : Z) (t : table) (n : leaf) (o : bool) : t
   if id_empty (l_dev n) then (t, [], AErr EClosed) else
   let i := hash (l_dev n) in
   match lookup chk t (l_dev n) with
-  | Other _ => (t, [], ASub None 0 (Some (l_dev n)) [])
+  | Other _ =>
+    if body_empty (l_body n) && (l_pid n =? SvHello) then (t, [], AErr EMalformed)
+    else (t, [], ASub None 0 (Some (l_dev n)) [])
   | Free =>
-    if negb (l_pid n =? SvHello) then (t, [], ASub None 0 (Some (l_dev n)) [])
+    if body_empty (l_body n) && (l_pid n =? SvHello) then (t, [], AErr EMalformed)
+    else if negb (l_pid n =? SvHello) then (t, [], ASub None 0 (Some (l_dev n)) [])
     else match l_body n with
          | BHello =>
            let s := new_session a (l_dev n) (l_job n) in
